@@ -417,6 +417,22 @@ def check_layout(bf, fields, defined, given, L):
                                                         vals)))
                 return P
             keys.append((value, mask, tuple(sorted(vals.items()))))
+            # the same key seen one field at a time
+            for i in en:
+                nm = fields[i]["name"]
+                st, ln = locs[i]
+                m = ((1 << ln) - 1) << st
+                try:
+                    got = (view.get_value(field=nm), view.get_mask(field=nm),
+                           getattr(view, nm))
+                except Exception as e:
+                    got = "%s: %s" % (type(e).__name__, e)
+                if got != (value & m, m, vals[nm]):
+                    P.append(("field_view", {},
+                              "(get_value(field=%r), get_mask(field=%r), .%s)"
+                              " = %r; key %#x, field at %r, value %r"
+                              % (nm, nm, nm, got, value, locs[i], vals[nm])))
+                    return P
             # tags
             alltags = set()
             for i in en:
@@ -430,6 +446,16 @@ def check_layout(bf, fields, defined, given, L):
                     got = view.get_mask(tag=t)
                 except Exception as e:
                     got = "%s: %s" % (type(e).__name__, e)
+                try:
+                    gv = view.get_value(tag=t)
+                except Exception as e:
+                    gv = "%s: %s" % (type(e).__name__, e)
+                if got == tm and gv != value & tm:
+                    P.append(("tag_value", {},
+                              "get_value(tag=%r) = %r, the key %#x restricted "
+                              "to the tag's mask %#x is %#x; values %r"
+                              % (t, gv, value, tm, value & tm, vals)))
+                    return P
                 if got != tm:
                     P.append(("tag_mask", {},
                               "get_mask(tag=%r) = %r, union of the tag's "
